@@ -103,6 +103,16 @@ func runCase(c *core.Ctx, i int) {
 		layoutCaseL2(c, rng)
 		return
 	}
+	// three real engines per ragged case: every 94th case of a quick run (~26), every 376th of a
+	// thorough run (~80 per seed)
+	if i%47 == 15 && (i/47)%2 == 1 && (c.Tier != "thorough" || (i/47)%8 == 1) {
+		raggedCase(c, rng)
+		return
+	}
+	if i%59 == 31 {
+		nextStagesCase(c, rng)
+		return
+	}
 	if i%23 == 7 {
 		loopbackCase(c, rng)
 		return
@@ -535,21 +545,26 @@ func runLayout(c *core.Ctx, w *World, q *QueryDef, l *Layout, emit bool, ctxBase
 			rootFrom = append(rootFrom, recvNames[j])
 		}
 	}
+	perm := l.RootPerm
+	if l.Receivers == 0 {
+		perm = l.LeafPerm[0]
+	}
+	// the root's targets spread over 1-3 physical plans (MakePlan: one addRequests per plan)
+	plans := splitPlans(rootFrom, perm)
+	if len(plans) > 1 {
+		c.Branch("root-multi-plan")
+	}
 	mk := func(lim int) *Root {
 		qq := *q
 		qq.Limit = lim
-		root, err := NewRoot(w, &qq, rootFrom)
+		root, err := NewRootPlans(w, &qq, plans)
 		if err != nil {
 			panic(err)
 		}
 		return root
 	}
 	root := mk(q.Limit)
-	op(fmt.Sprintf("new %d %d", ctxBase, len(rootInputs)), stateLine(&root.Ctx.MetricContext))
-	perm := l.RootPerm
-	if l.Receivers == 0 {
-		perm = l.LeafPerm[0]
-	}
+	op(newOp(ctxBase, plans), stateLine(&root.Ctx.MetricContext))
 	for _, k := range perm {
 		root.Ctx.HandleResponse(rootInputs[k], rootFrom[k])
 		op(fmt.Sprintf("resp %d %s", ctxBase, encodeResp(rootInputs[k])), stateLine(&root.Ctx.MetricContext))
@@ -577,7 +592,7 @@ func runLayout(c *core.Ctx, w *World, q *QueryDef, l *Layout, emit bool, ctxBase
 		checkHaving(c, w, q, root, res, func() *Result {
 			qq := *q
 			qq.Having = nil
-			plain, err := NewRoot(w, &qq, rootFrom)
+			plain, err := NewRootPlans(w, &qq, plans)
 			if err != nil {
 				panic(err)
 			}
@@ -902,7 +917,22 @@ func describeLayout(l *Layout) string {
 	for _, leaf := range l.Leaves {
 		parts = append(parts, fmt.Sprintf("%s%v nometric=%v fields=%v", leaf.Name, leaf.Shards, leaf.NoMetric, leaf.KnownFields))
 	}
-	return fmt.Sprintf("leaves=[%s] receivers=%d leafperm=%v rootperm=%v", strings.Join(parts, "; "), l.Receivers, l.LeafPerm, l.RootPerm)
+	// the root's targets over physical plans (splitPlans: a function of the targets and the root's delivery order)
+	var rootFrom []string
+	perm := l.RootPerm
+	if l.Receivers == 0 {
+		for _, leaf := range l.Leaves {
+			rootFrom = append(rootFrom, leaf.Name)
+		}
+		if len(l.LeafPerm) > 0 {
+			perm = l.LeafPerm[0]
+		}
+	} else {
+		for j := 0; j < l.Receivers; j++ {
+			rootFrom = append(rootFrom, fmt.Sprintf("im%d", j))
+		}
+	}
+	return fmt.Sprintf("leaves=[%s] receivers=%d leafperm=%v rootperm=%v rootplans=%v", strings.Join(parts, "; "), l.Receivers, l.LeafPerm, l.RootPerm, splitPlans(rootFrom, perm))
 }
 
 // layoutCase: one world + query, the reference layout (one shard, one leaf, no intermediates)
@@ -1159,6 +1189,58 @@ func protocolCase(c *core.Ctx, rng *rand.Rand) {
 	}
 	if len(outs) > 1 && kinds["foreign"] == 0 {
 		c.Fail("arrival-order-changes-outcome", strings.Join(lines, " // "))
+	}
+	// the same responses in the same order into roots whose targets are spread over several physical
+	// plans (every partition shape is drawn: small last plan, small first plan, singletons): the
+	// outcome must be that of the single plan, and the tolerance rules hold as they are.
+	order := perm(rng, n)
+	var single string
+	for rep := 2; rep < 5; rep++ {
+		plans := [][]string{from}
+		if rep > 2 {
+			np := 1 + rng.Intn(n)
+			plans = make([][]string, np)
+			for i, k := range perm(rng, n) {
+				j := rng.Intn(np)
+				if i < np {
+					j = i
+				}
+				plans[j] = append(plans[j], from[k])
+			}
+			if rng.Intn(2) == 0 {
+				sort.SliceStable(plans, func(a, b int) bool { return len(plans[a]) > len(plans[b]) })
+			}
+		}
+		root, err := NewRootPlans(w, q, plans)
+		if err != nil {
+			panic(err)
+		}
+		c.Op(newOp(rep, plans), stateLine(&root.Ctx.MetricContext))
+		for _, k := range order {
+			root.Ctx.HandleResponse(rs[k], from[k])
+			c.Op(fmt.Sprintf("resp %d %s", rep, encodeResp(rs[k])), stateLine(&root.Ctx.MetricContext))
+		}
+		res := root.Finish()
+		line := res.line(q, nil)
+		c.Op(q.resultOp(rep), line)
+		var shape []string
+		for _, p := range plans {
+			shape = append(shape, "["+strings.Join(p, ",")+"]")
+		}
+		if rep == 2 {
+			single = line
+			continue
+		}
+		if len(plans) > 1 {
+			c.Branch("protocol-multi-plan")
+		}
+		if line != single {
+			c.Fail("plan-split-changes-outcome", fmt.Sprintf("%d targets answering %v delivered in order %v: one plan gives %s, plans %s give %s",
+				n, kinds, order, single, strings.Join(shape, ""), line))
+		}
+		if kinds["er"] == 0 && kinds["bad"] == 0 && kinds["nf"] < n && res.Err != "" {
+			c.Fail("notfound-not-tolerated", fmt.Sprintf("%v responses %v over plans %s gave %s", n, kinds, strings.Join(shape, ""), line))
+		}
 	}
 	if kinds["data"] > 0 {
 		c.NonTrivial()
